@@ -798,6 +798,9 @@ type Data struct {
 
 	metadata   map[Schema][]byte
 	metadataMu sync.RWMutex
+
+	// Serializes read-merge-write updates of annotations (storeAndUpdate).
+	updateMu sync.Mutex
 }
 
 // IsMutationRequest overrides the default behavior to specify POST /query as an immutable
@@ -1413,6 +1416,10 @@ func (d *Data) storeAndUpdate(ctx *datastore.VersionedCtx, keyStr string, newDat
 	if err != nil {
 		return err
 	}
+
+	// the stored annotation is read, merged with the new fields and written back
+	d.updateMu.Lock()
+	defer d.updateMu.Unlock()
 
 	// get original data so we can handle default update and tell which values change for _user/_time fields.
 	origData, found, err := d.getStoreData(ctx, keyStr)
